@@ -27,7 +27,17 @@ func init() {
 	})
 	gen.RegisterOp("c08", "validate", func(c *gen.Ctx, raw json.RawMessage) any {
 		in := gen.Into[c08ValidateIn](raw)
-		_, class, list, _ := cc.VerifValidate(cc.VerifSimpleSuites(c08SuiteDef), c08Cfg, in.Failing, in.Flaky, in.Run, in.Skip)
+		var class string
+		var list []string
+		if in.Via == "Run" {
+			// through the exported Run: the four lists travel in Flags, config and suites are files
+			dir := filepath.Join(c.WorkDir, fmt.Sprintf("c08-%d-%d", os.Getpid(), c08Seq.Add(1)))
+			os.MkdirAll(dir, 0o755)
+			defer os.RemoveAll(dir)
+			class, list, _ = cc.VerifValidateRun(dir, cc.VerifSimpleSuites(c08SuiteDef), c08Cfg, in.Failing, in.Flaky, in.Run, in.Skip)
+		} else {
+			_, class, list, _ = cc.VerifValidate(cc.VerifSimpleSuites(c08SuiteDef), c08Cfg, in.Failing, in.Flaky, in.Run, in.Skip)
+		}
 		c.E.Count("validate-class:" + strings.SplitN(class, ":", 2)[0])
 		return c08ValidateOut{class, nn(list)}
 	})
@@ -103,7 +113,11 @@ type c08ValidateIn struct {
 	Run     []string `json:"run"`
 	Skip    []string `json:"skip"`
 	Names   []string `json:"names"`
+	Via     string   `json:"via,omitempty"` // "" = run() with tries built as Run builds them; "Run" = the exported Run with the lists in Flags
 }
+
+var c08Seq atomic.Int64
+
 type c08ValidateOut struct {
 	Class string   `json:"class"`
 	List  []string `json:"list"`
@@ -268,6 +282,55 @@ func runC08(c *gen.Ctx) error {
 	for i := 0; i < nVal; i++ {
 		c.Do("validate", c08ValidateIn{Failing: plist(2), Flaky: plist(2), Run: plist(2), Skip: plist(1), Names: allNames})
 	}
+	// (ii.a') the same block reached through the exported Run (lists in Flags): every way of giving ONE
+	// pattern to a non-empty subset of the four kinds (the same spelling for several kinds, 15 x 4
+	// patterns), every ordered pair of kinds with two spellings of one selection, then random lists in
+	// which patterns are shared between kinds and repeated within a kind
+	{
+		var ins []any
+		shared := []string{allNames[0], "**", "S/**", "**/a/x"}
+		for _, p := range shared {
+			for mask := 1; mask < 16; mask++ {
+				in := c08ValidateIn{Names: allNames, Via: "Run"}
+				if mask&1 != 0 {
+					in.Failing = []string{p}
+				}
+				if mask&2 != 0 {
+					in.Flaky = []string{p}
+				}
+				if mask&4 != 0 {
+					in.Run = []string{p}
+				}
+				if mask&8 != 0 {
+					in.Skip = []string{p}
+				}
+				ins = append(ins, in)
+			}
+		}
+		nShared := 60
+		if c.Thorough() {
+			nShared = 1500
+		}
+		for i := 0; i < nShared; i++ {
+			in := c08ValidateIn{Failing: plist(2), Flaky: plist(2), Run: plist(2), Skip: plist(1), Names: allNames, Via: "Run"}
+			lists := []*[]string{&in.Failing, &in.Flaky, &in.Run, &in.Skip}
+			for k := r.Intn(3); k >= 0; k-- {
+				from, to := lists[r.Intn(4)], lists[r.Intn(4)]
+				if len(*from) > 0 {
+					*to = append(*to, gen.Pick(r, *from))
+				} else {
+					p := patFrom()
+					*from = append(*from, p)
+					*to = append(*to, p)
+				}
+			}
+			ins = append(ins, in)
+		}
+		for _, in := range ins {
+			e.Count("validate-via-Run")
+			c.Do("validate", in)
+		}
+	}
 	// (ii.b) patterns at work in the real dispatch loop
 	{
 		suites := []c05Suite{
@@ -288,6 +351,10 @@ func runC08(c *gen.Ctx) error {
 				continue
 			}
 			ins = append(ins, c05In{Mode: "client", MaxServers: 2, Versions: []int{1, 2}, Protos: []int{1, 2, 3}, Behaviour: "ok", Run: p[0], Skip: p[1], Suites: suites})
+		}
+		// the same spelling given to --run and to --skip: the skip pattern wins for what both select
+		for _, p := range [][2][]string{{{"**/a/*", "Q/**"}, {"Q/**"}}, {{"P/**", "**/b/t1"}, {"**/b/t1"}}} {
+			ins = append(ins, c05In{Mode: "client", MaxServers: 2, Versions: []int{1}, Protos: []int{1, 2}, Behaviour: "ok", Run: p[0], Skip: p[1], Suites: suites})
 		}
 		c.DoParallel("dispatch", ins, 3)
 	}
